@@ -518,6 +518,14 @@ structure Meta where
 
 def Meta.data (m : Meta) : MetaData := ⟨m.cluster, m.local, m.peer, m.config⟩
 
+/-- `slot_range.get_mut_range_list().compact()` -/
+def SlotRange.compacted (sr : SlotRange) : SlotRange := { sr with ranges := compact sr.ranges }
+
+/-- the normalisation loop over `node_map.values_mut()` in the compressed branch of
+`ProxyClusterMeta::parse` (fix 23e5d8f): every slot range's list is compacted, as the textual
+form's `RangeList::parse` does -/
+def NodeMap.compacted (nm : NodeMap) : NodeMap := nm.map fun p => (p.1, p.2.map SlotRange.compacted)
+
 /-- `extended_meta_result`: `false` = `Err(ParseExtendedMetaError)` (reply `WARNING: ignored
 invalid config`) -/
 abbrev ParseOk := Meta × Bool
@@ -542,7 +550,8 @@ def parseSections : Nat → NodeMap → NodeMap → Config → Bool → List Str
     else .error .invalidArgs
 
 /-- `ProxyClusterMeta::parse`, parametrised by the decoder of the compressed blob
-(`ProxyClusterMetaData::from_compressed_data`: base64 ∘ gunzip ∘ JSON; `none` = any error). -/
+(`ProxyClusterMetaData::from_compressed_data`: base64 ∘ gunzip ∘ JSON; `none` = any error); the
+decoded node maps are then normalised (`NodeMap.compacted`). -/
 def parseWith (dec : Str → Option MetaData) (ts : List Str) : Except PErr ParseOk :=
   match ts with
   | [] => .error .invalidArgs
@@ -564,7 +573,8 @@ def parseWith (dec : Str → Option MetaData) (ts : List Str) : Except PErr Pars
             | blob :: _ =>
               match dec blob with
               | none => .error .invalidArgs
-              | some d => .ok (⟨version, epoch, flags, d.cluster, d.local, d.peer, d.config⟩, true)
+              | some d =>
+                .ok (⟨version, epoch, flags, d.cluster, NodeMap.compacted d.local, NodeMap.compacted d.peer, d.config⟩, true)
           else match ts3 with
           | [] => .error .invalidArgs
           | name :: ts4 =>
